@@ -15,6 +15,7 @@ import (
 	"testing"
 
 	"github.com/trustbloc/sidetree-go/pkg/commitment"
+	"github.com/trustbloc/sidetree-go/pkg/document"
 	"github.com/trustbloc/sidetree-go/pkg/jws"
 	"github.com/trustbloc/sidetree-go/pkg/jwsutil"
 	"github.com/trustbloc/sidetree-go/pkg/util/pubkey"
@@ -81,6 +82,18 @@ func TestC16_JWKRoundTrip(t *testing.T) {
 		// the reader of update / recovery keys in requests (jws.JWK.Validate) takes it
 		if err := j.Validate(); err != nil {
 			t.Fatalf("C16 %s: JWK of a supported key refused by jws.JWK.Validate: %v (%s)", k.Name, err, refJCS(map[string]interface{}{"kty": j.Kty, "crv": j.Crv, "x": j.X, "y": j.Y}))
+		}
+		// ... and so does the reader of document keys (document.JWK.Validate), given the JWK as the library serializes it
+		if raw, err := json.Marshal(j); err != nil {
+			t.Fatalf("C16 %s: JWK does not serialize: %v", k.Name, err)
+		} else {
+			var asDocKey map[string]interface{}
+			if err := json.Unmarshal(raw, &asDocKey); err != nil {
+				t.Fatalf("C16 %s: serialized JWK is not a JSON object: %v", k.Name, err)
+			}
+			if err := document.JWK(asDocKey).Validate(); err != nil {
+				t.Fatalf("C16 %s: the library's serialization of the key's JWK is refused as a document key: %v (%s)", k.Name, err, raw)
+			}
 		}
 		// read back
 		back, err := unmarshalJWK(j)
@@ -163,11 +176,13 @@ func TestC16_JWKRoundTrip(t *testing.T) {
 			b := get()
 			set(b[:len(b)-1])
 			label = "short-tail"
-		case 3: // extended
-			set(append(get(), rapid.Byte().Draw(t, "extra")))
+		case 3: // extended (by one byte, or by so many that a narrow length field wraps around)
+			n := rapid.SampledFrom([]int{1, 1, 256, 65536}).Draw(t, "extraBytes")
+			set(append(get(), append(make([]byte, n-1), rapid.Byte().Draw(t, "extra"))...))
 			label = "long-tail"
-		case 4: // extra leading zero
-			set(append([]byte{0}, get()...))
+		case 4: // extra leading zeros: the same number, not the same encoding
+			n := rapid.SampledFrom([]int{1, 1, 2, 32, 256, 512, 65536}).Draw(t, "leadingZeros")
+			set(append(make([]byte, n), get()...))
 			label = "long-leading-zero"
 		case 5: // leading byte stripped (a leading zero when there is one: the classic minimal-encoding bug)
 			b := get()
